@@ -21,16 +21,18 @@ HasNbf == {"cookie", "cli", "storage"}
 Signers == {"ours", "otherrsa", "otherec", "none", "hmacpub"}
 \* single deviations from the genuine artefact
 \* notype / nulltype: the claim that says what kind of artefact this is, removed / null; expjust: expired three seconds ago
-Muts == {"none", "iss", "aud", "nbf", "exp", "expjust", "notype", "nulltype", "tamper", "sigflip", "corrupt"}
+\* isslike / audlike: issuer / audience of ANOTHER server whose URL merely begins with ours (other port, longer host name)
+\* nbfjust: not valid for another 90 seconds
+Muts == {"none", "iss", "aud", "isslike", "audlike", "nbf", "nbfjust", "exp", "expjust", "notype", "nulltype", "tamper", "sigflip", "corrupt"}
 
 Art(k, s, m) == [kind |-> k, signer |-> s, mut |-> m]
 
 Intact(a)   == a.signer = "ours" /\ a.mut \notin {"tamper", "sigflip", "corrupt"}
-InWindow(a) == a.mut \notin {"exp", "expjust"} /\ (a.mut = "nbf" => a.kind \notin HasNbf)
+InWindow(a) == a.mut \notin {"exp", "expjust"} /\ (a.mut \in {"nbf", "nbfjust"} => a.kind \notin HasNbf)
 G_C04_Signed(c, a)  == Intact(a)
 G_C04_Kind(c, a)    == a.kind = Consumes[c] /\ a.mut \notin {"notype", "nulltype"}
 G_C04_Window(c, a)  == InWindow(a)
-G_C04_IssAud(c, a)  == c \in NeedsIssAud => a.mut \notin {"iss", "aud"}
+G_C04_IssAud(c, a)  == c \in NeedsIssAud => a.mut \notin {"iss", "aud", "isslike", "audlike"}
 HonourGuards(c, a) == {<<"G_C04_Signed", G_C04_Signed(c, a)>>, <<"G_C04_Kind", G_C04_Kind(c, a)>>,
                        <<"G_C04_Window", G_C04_Window(c, a)>>, <<"G_C04_IssAud", G_C04_IssAud(c, a)>>}
 MayHonour(c, a) == \A g \in HonourGuards(c, a) : g[2]
